@@ -455,3 +455,26 @@ PROPS['C20'] = dict(
     level_text='the finite set of mirrors and declarations is enumerated completely for both real widths from the current tree; the "value written on one side is read identically on the other" clause is exercised with generated field values',
     level_note='trusts clang and rustc layout computation and the small lib.rs parser in exec/C20/c20.py; x86-64 only; cargo/cmake build paths not exercised',
 )
+
+
+# ---------------------------------------------------------------------------------------------------------------------------
+# classes added while the seeded changes of rounds seven and eight were worked through (DESIGN §7); appended to the rule texts
+_ADDED = {
+    'C01': 'half of the histories place the elements in the heap and in three mapped arenas more than 4 GiB apart; every fourth insertion of an absent key discards the returned pointer',
+    'C02': 'half of the histories place the elements in the heap and in three mapped arenas more than 4 GiB apart; every fourth insertion of an absent key discards the returned pointer',
+    'C03': 'half of the histories place the elements in the heap and in three mapped arenas more than 4 GiB apart',
+    'C04': 'per history the one-byte key of an element sits in byte 0 or in byte 1 behind a byte that is mostly NUL (comparator, model and search probe follow); typed macro spellings (A_VEC_PUSH_BACK ... A_BUF_SEARCH) alternate with the functions',
+    'C06': 'bytes >= 0x80 are passed to catc half of the time the way a signed char promotes (negative; 0xFF = -1); a_str_setm_ sets the capacity exactly (shrink to fit or a little above the length)',
+    'C09': 'the integer class also holds infinite entries: a cell whose terms contain one is that infinity, cells whose value is indeterminate (inf * 0, inf - inf) are not judged',
+    'C10': 'further argument classes: both components independently from a pool of named constants (e, 2, 10, pi, pi/2, ln 2, sqrt 2, 1/e, ...); for pow_real exponents at the limits of the integer types (+-2^31, 2^31+-1, 2^32, 2^15, 2^16, 2^24, ...) with the base within exp(+-600/|s|) of the unit circle, judged with the closed-form condition |s||f|(1+|log z|) and only while |s| u <= 2^-10',
+    'C11': 'the norms are asked again with the same arguments after an in-place change of the last component (the value follows the data, not the pointer)',
+    'C12': 'one table object may be registered for both inputs (me == mec); a twin controller is stepped m times with one constant sample and the results discarded, against the same steps with every result used',
+    'C13': 'one table object may be registered for both inputs (me == mec)',
+    'C14': 'the lattice class includes bell moves of length zero that reverse their velocity (feasible whenever v0 + v1 < 0)',
+    'C16': '(tf) primed samples whose results are discarded followed by a loop over one constant sample, against the reference recurrence',
+    'C17': 'each CRC is computed three times by direct calls with identical arguments in straight-line code: before, after and after undoing an in-place edit of one message byte',
+    'C18': 'a freshly constructed string object is counted with the out-parameter pre-set to a wrong value; after the cut the string object is appended to again (code points and raw bytes), so that an interrupted character lies in its interior, and counted with and without the out-parameter',
+    'C19': 'every case runs under one of the four rounding modes (to nearest in 5 of 8)',
+}
+for _k, _v in _ADDED.items():
+    PROPS[_k]['rule'] = PROPS[_k]['rule'] + '. Also: ' + _v
